@@ -264,6 +264,8 @@ def model_op(case):
                      'preprocess': bool(pp), 'actual_path': case['entry'] != 'string',
                      'create_temporaries': True},
             'pat': table, 'actual': act, 'expected': exp,
+            # the actual content as given to the assertion (what the raw actual file must hold)
+            'raw_actual': case['actual'] if isinstance(case['actual'], str) else '\n'.join(case['actual']),
             'guide_nl': _universal(case['expected']).endswith('\n')}
 
 
